@@ -304,7 +304,8 @@ fn main() {
                     api::DbOp::PinIterator(_) => frozen_pins.push((i, model.clone())),
                     api::DbOp::Reopen(_) | api::DbOp::ReopenSmallFiles(_) | api::DbOp::DamageManifest(_, _) => { frozen.clear(); frozen_pins.clear(); }
                     api::DbOp::ReleaseSnapshot => { if !frozen.is_empty() { frozen.remove(0); } }
-                    api::DbOp::DirCheck => { frozen.clear(); frozen_pins.clear(); }
+                    // (pinned iterators are read at the directory check, before they are given up: their frozen models stay)
+                    api::DbOp::DirCheck => { frozen.clear(); }
                     _ => {}
                 }
             }
